@@ -87,7 +87,9 @@ PINNED = ["one/tag-~X~/mk-tuple-2~E/ident", "mk-dict-2/setkey-z-~X~/mk-pairs-3~E
           # lists holding tuples / non-JSON members (lists are filed by the default, pickling, state type)
           "mk-pairs-2/ident", "mk-list-1/push-~X~/mk-set-1~E/ident",
           # a dictionary JSON cannot write at all (it holds a set): not kept, never served as something else
-          "mk-dict-1/setkey-s-~X~/mk-set-2~E/ident"]
+          "mk-dict-1/setkey-s-~X~/mk-set-2~E/ident",
+          # downstream of a volatile step, an action whose link argument points to a perfectly cacheable query
+          "one/vol/cat-~X~/one/add-10~E/ident", "lit-a/vol/ident/cat-b-~X~ident~E"]
 
 
 def gen_history(rnd, g, kind="", pinned=None):
@@ -113,7 +115,8 @@ def gen_history(rnd, g, kind="", pinned=None):
         # a step that switches caching off / makes the result volatile, followed by steps that look as if they undid it
         g._numeric_prefix = False
         base = "%s/%s/%s/%s" % (g.action(0, 0, True), rnd.choice(["nocache", "vol", "nocache/ident", "vol/cat-v"]),
-                                rnd.choice(["recache", "nonvol", "recache/nonvol", "nonvol/recache"]), g.query(0, first=False, max_len=2))
+                                rnd.choice(["recache", "nonvol", "recache/nonvol", "nonvol/recache", "cat-~X~/one/add-10~E", "cat-~X~/lit-a/cat-b~E-t",
+                                            "cat-~X~ident~E"]), g.query(0, first=False, max_len=2))
     if base is None and rnd.random() < 0.08:
         # state variables holding values of every kind (they travel in the caches' metadata)
         base = "one/tag-~X~/%s~E/%s" % (rnd.choice(["mk-tuple-2", "mk-list-2", "mk-dict-2", "mk-text-2", "mk-float-3", "mk-none", "mk-nested",
